@@ -3,15 +3,28 @@
 
   proofs           Properties_C16.v: box / simplex constraints for every history of update steps (model of
                    QpMcBoxDecomp / QpMcSimplexDecomp::updateSMO + updateVarsum), the analytic sub-solvers,
-                   the working-set gains, the QpSparseArray merge scan; axiom-free over Q.
+                   the working-set gains, the QpSparseArray merge scan; the STATE MODEL C16State (gradient, linear
+                   term, variable / example tables, shrink / unshrink, every history); the linear solvers C16Linear
+                   (constraints, w book-keeping); axiom-free over Q.
   correspondence   extracted C16Model (float instantiation) vs the compiled C++, EXACT:
                      free   solveQuadraticEdge / 2DBox / 2DTriangle, maximumGainQuadratic2D(OnLine), QpSparseArray::operator()
                      steps  every updateSMO call of the real QpMcSimplexDecomp / QpMcBoxDecomp in step-by-step
                             driven runs: model step applied to the implementation's own previous state
+                     state  C16State.mstep / init_state: the FULL positional state (alpha, gradient, linear, both tables,
+                            active counts, varsum, flags) after the constructor and after every updateSMO / shrink /
+                            unshrink / addDeltaLinear of the same runs, one operation at a time from the implementation's
+                            own previous state (tables read through '#define private public')
+                     linear C16Linear.lin_step: every example step of the eight QpMcLinear* classes through their real
+                            calcGradient / solveSub / updateWeightVectors; boxlin_epoch: QpBoxLinear::solve, one epoch per
+                            call, schedule re-derived from the seed
   spec monitors    (independent of the model, evaluated on the implementation's output)
                      steps  constraints, gradient == linear - Q alpha with Q rebuilt from nu and an independent
                             kernel matrix (active variables after every step, all variables after unshrink),
-                            variable/example tables, M == (centred) nu nu^T, rows sorted
+                            variable/example tables (harness and, independently, on every positional state here: permutations,
+                            cross indices, active prefix, labels / diagonal by data index, kernel matrix under the example
+                            permutation after shrink), M == (centred) nu nu^T, rows sorted
+                     linear box / simplex constraints, mu = alpha' - alpha, w' = w + step(mu) x (formulas written here),
+                            QpBoxLinear: 0 <= alpha <= bound, w = sum alpha_i y_i x_i
                      mc     metamorphic runs of the real CSvmTrainer for all nine formulations: base (precomputed, no
                             shrinking) vs shrinking / cache sizes / float cache / permuted examples; tolerance derived
                             from the measured duality gap (primal objective and dual bound recomputed here)
@@ -1040,7 +1053,8 @@ def main():
     ck.trusted = DEFAULT_TRUSTED + [
         "harness/c16_mc.cpp: private members of CSvmTrainer / QpMcBoxDecomp / QpMcSimplexDecomp reached through '#define private public' in that TU only; its step driver repeats QpSolver's loop with a configurable shrink period",
         "tools/c16.py: primal objectives of the nine formulations and the dual bound written from the definitions (validated on every run: 0 <= gap <= accuracy bound for all formulations)",
-        "modelled, not verified: shrinking book-keeping of the multi-class solvers, working-set selection, BiasSolver (Rprop), the linear coordinate-descent solvers - these are monitored"]
+        "harness/c16_mc.cpp: the epoch loop around the real calcGradient / solveSub / updateWeightVectors of QpMcLinear* is the harness's own (random order); for QpBoxLinear::solve the schedule of a one-epoch call is re-derived by the harness with the same generator calls (checked: preferences stay 1)",
+        "not modelled: working-set selection (selectWorkingSet / maxGainBox / maxGainSimplex), BiasSolver's Rprop loop, the kernel cache, the scheduling (ACF) of the linear solvers - covered by the metamorphic monitors only"]
     ck.assumptions = ["kernel matrices symmetric positive semi-definite (linear / Gaussian kernels); C > 0; labels cover 0..classes-1",
                       "tolerances of the metamorphic monitors are derived from the measured duality gap (strong convexity in w): rigorous without offset; with offset (Rprop on a sub-gradient) a heuristic radius of 4x the accuracy-implied gap is used",
                       "keys  ^(mc|bin2):offset:  mark checks that depend on the optimality of multi-class offsets trained by BiasSolver/BiasSolverSimplex (finding D5); no check of an offset-free configuration, of OVA or of the binary machine carries such a key",
@@ -1358,6 +1372,8 @@ def main():
     ck.cov["distinct_nontrivial"] = len([x for x in cfgs if x[-1]]) + len(set(l.split()[0] for l in free_lines)) + len(set((c["type"], c["k"], bool(c["sp"])) for c in step_cfgs))
     ck.cov["rule"] = ("free: generated calls of the 5 analytic functions + QpSparseArray lookups (integers, dyadics, values around the 1e-12/1e-14 thresholds, indefinite blocks), exact model-vs-C++ comparison; "
                       "steps: step-driven runs of the real QpMcSimplexDecomp/QpMcBoxDecomp (8 formulations, 2-5 classes, n<=9 (14), shrink period 0/2/3/7, random working sets mixed in), every updateSMO is one evaluation; "
+                      "state: the same runs + shrink streams (every formulation x 2..5 classes, shrink every 1-3 steps, small C = many variables at C, separable blobs with large C = whole examples at zero, addDeltaLinear events): every constructor / updateSMO / shrink / unshrink / addDeltaLinear compared as a full positional state = one evaluation; "
+                      "linear: 3 (12) runs per QpMcLinear class (2-5 classes, 2-5 epochs) + 16 (60) QpBoxLinear runs, every example step / epoch = one evaluation; "
                       "groups: one data set x formulation x {offset} each, trained in the base configuration and 4 (5) variants {shrinking, cache size, float cache, permutation} = one evaluation per trainer run; "
                       "mc: 3-5 classes; bin2: two classes through solveMcBox/solveMcSimplex vs the binary machine; lin: LinearCSvmTrainer/QpMcLinear* (2 seeds + direct) vs kernel trainer with LinearKernel; "
                       "non-trivial = distinct (formulation, offset, shrinking, precomputed, cache type, permuted, cache>=n^2) tuples whose run took >= 3 iterations + distinct free functions + distinct (formulation, classes, shrinking) of step runs")
